@@ -472,6 +472,8 @@ PRIM_SRCS = [
     'global glob, asg', 'def f():\n    nonlocal non, local', 'x = name + notify - inner * form', 'x = a if b else c', 'x = not a', 'x = -a ** -b',
     'x = a < b in c', 'x = a and b or c', 'x += 1', 'x = a + b * c', 'x = (a + b) * c', 'x = a ** b ** c', 'x = -a', 'x = a not in b is not c',
     'x = 1', 'x = "s"', 'x = b"s"', 'x = None', 'x = ...', 'x = 1.5', 'x = 2j', 'x = -1', 'x = "é" "ü"', 'x = a[1]', 'x = f(1, "s")', 'x = [1, True, None]',
+    'x = u"s"', "x = U'é' 't'", 'x = u"s".upper()', 'x = rb"s"', 'x = r"s\\d"', 'x = """m\nl"""', 'x = 0x1F', 'x = 1_000', 'x = 1e3', 'x = 0o17 + 0b11', 'x = 1_0.0_1j',
+    'x = f"{u\'s\'}"', 'f(u"s", k=u"t")', 'match s:\n    case u"s": pass',
     'for forin in inner: pass', 'with within as aswith: pass', 'lambda lambda_, *a, k, **kw: lambda_', 'x = [elif_ for elif_ in orelse if ifs]',
     'def f(a: int = 1) -> int: pass', 'x: int = 1', 'del delete', 'assert asserted, msg', 'raise raised from cause', 'return_ = (yield yielded)',
 ]
@@ -810,5 +812,127 @@ def par_signature(rec):
 def replay_par(rec):
     for r in run_par_case(tuple(rec['case'])):
         if 'fail' in r and r.get('node') == rec.get('node') and r.get('op') == rec.get('op'):
+            return r['fail']
+    return None
+
+
+# ---- optional single-node fields: delete / delete-then-put-back / replace, with the child in every parenthesised layout ---------
+# (template, node class, field); {V} is the optional child; the node is the first of its class whose field is set
+OPT_SLOTS = [
+    ('class A[T: {V}]: pass', 'TypeVar', 'bound'), ('def f[T: {V}, U](): pass', 'TypeVar', 'bound'), ('async def f[U, T: {V}](): pass', 'TypeVar', 'bound'),
+    ('type A[T: {V}] = x', 'TypeVar', 'bound'), ('def f() -> {V}: pass', 'FunctionDef', 'returns'), ('async def f(a) -> {V}: pass', 'AsyncFunctionDef', 'returns'),
+    ('def f(a: {V}, b): pass', 'arg', 'annotation'), ('def f(*a: {V}): pass', 'arg', 'annotation'), ('def f(b, /, *, a: {V} = 1): pass', 'arg', 'annotation'),
+    ('lambda: 0\nx: int = {V}', 'AnnAssign', 'value'), ('def f():\n    return {V}', 'Return', 'value'), ('raise {V}', 'Raise', 'exc'),
+    ('raise e from {V}', 'Raise', 'cause'), ('assert t, {V}', 'Assert', 'msg'), ('with a as {V}: pass', 'withitem', 'optional_vars'),
+    ('async def f():\n    async with a as {V}, b: pass', 'withitem', 'optional_vars'), ('with (a as {V}, b): pass', 'withitem', 'optional_vars'),
+    ('try: pass\nexcept {V}: pass', 'ExceptHandler', 'type'), ('try: pass\nexcept* {V}: pass\nfinally: pass', 'ExceptHandler', 'type'),
+    ('x[{V}:]', 'Slice', 'lower'), ('x[:{V}]', 'Slice', 'upper'), ('x[a:b:{V}]', 'Slice', 'step'), ('x[::{V}]', 'Slice', 'step'), ('x[{V}:b, c]', 'Slice', 'lower'),
+    ('def f():\n    yield {V}', 'Yield', 'value'), ('def f():\n    x = yield {V}', 'Yield', 'value'),
+    ('match s:\n    case 1 if {V}: pass', 'match_case', 'guard'), ('match s:\n    case [a, b] if {V}:\n        pass', 'match_case', 'guard'),
+    ('z = {a: b, {V}: c}', 'Dict', 'keys[1]'), ('z = {{V}: c, d: e}', 'Dict', 'keys[0]'), ('z = {{V}: c}', 'Dict', 'keys[0]'),
+    ('def f(a, *, b={V}, c): pass', 'arguments', 'kw_defaults[0]'), ('lambda *, b={V}: b', 'arguments', 'kw_defaults[0]'),
+    ('def f(*, b, c={V}, **k): pass', 'arguments', 'kw_defaults[1]'),
+    ('def f(a, *{V}): pass', 'arguments', 'vararg'), ('def f(a, **{V}): pass', 'arguments', 'kwarg'), ('lambda *{V}, k: 0', 'arguments', 'vararg'),
+    ('match s:\n    case {P} as y: pass', 'MatchAs', 'pattern'), ('match s:\n    case [{P} as y, z]: pass', 'MatchAs', 'pattern'),
+    ('match s:\n    case C(k={P} as y): pass', 'MatchAs', 'pattern'),
+]
+OPT_VALUES = ['v', '(v)', '( v )', '(\n v\n)', '(\n    v  # c\n)', 'é', '(é)', 'v if w else u', '(v if w else u)', '(v)[w]', '(v).w', '(v, w)', '((v))', '"#)"', '("#)")']
+OPT_ARGS = ['v', 'é', 'v: w', 'v: (w)', 'é: "é"']
+OPT_PATS = ['1', '(1)', '(1 | 2)', '( é.v )', '[a, b]', '(\n        1\n    )', 'C()', '((2))']
+OPT_OPS = ['set-none', 'del-attr', 'put-none', 'set-none+back', 'set-none+back-par', 'replace', 'replace-par', 'replace+set-none']
+OPT_VARIANTS = ['ascii', 'mb', 'nest']
+
+
+def opt_cases():
+    return [('o', i) for i in range(len(OPT_SLOTS))]
+
+
+def _opt_src(tmpl, v, var):
+    src = tmpl.replace('{V}', v).replace('{P}', v)
+    if var == 'mb':
+        return mb(src)
+    if var == 'nest':
+        return 'if 1:\n' + '\n'.join('    ' + l for l in src.split('\n')) + '\nelse:\n    pass'
+    return src
+
+
+def _opt_get(a, field):
+    if field.endswith(']'):
+        name, i = field[:-1].split('[')
+        lst = getattr(a, name)
+        return lst[int(i)] if int(i) < len(lst) else None
+    return getattr(a, field, None)
+
+
+def _opt_put(node, field, value, how):
+    if field.endswith(']'):
+        name, i = field[:-1].split('[')
+        node.put(value, int(i), name)
+    elif how == 'del-attr' and value is None:
+        delattr(node, field)
+    elif how == 'put-none' or value is not None and how.startswith('replace'):
+        node.put(value, field)
+    else:
+        setattr(node, field, value)
+
+
+def run_opt_case(case, only=None):
+    from fst import FST
+    tmpl, cls, field = OPT_SLOTS[case[1]]
+    res = []
+    values = OPT_PATS if '{P}' in tmpl else OPT_ARGS if field in ('vararg', 'kwarg') else OPT_VALUES
+    back = '1 | 3' if '{P}' in tmpl else 'zz'
+    for vi, v in enumerate(values):
+        for var in OPT_VARIANTS:
+            src = _opt_src(tmpl, v, var)
+            if src is None:
+                continue
+            try:
+                ast.parse(src)
+            except SyntaxError:
+                continue
+            for op in OPT_OPS:
+                if only and (vi, var, op) != only:
+                    continue
+                try:
+                    root = FST(src, 'exec')
+                except Exception as e:
+                    res.append({'case': list(case), 'setup_error': repr(e)[:120]})
+                    break
+                node = next((f for f in root.walk(True) if f.a.__class__.__name__ == cls and _opt_get(f.a, field) is not None), None)
+                if node is None:
+                    res.append({'case': list(case), 'setup_error': f'no {cls}.{field} in {src!r}'})
+                    break
+                rec = {'case': list(case), 'src': src, 'cls': cls, 'field': field, 'op': op, 'vi': vi, 'var': var}
+                steps = []
+                first, _, second = op.partition('+')
+                steps.append((first, None if first in ('set-none', 'del-attr', 'put-none') else back if first == 'replace' else f'({back})'))
+                if second:
+                    steps.append((second, None if second == 'set-none' else back if second == 'back' else f'({back})'))
+                for si, (how, value) in enumerate(steps):
+                    try:
+                        with FST.options(norm=True):
+                            _opt_put(node, field, value, how)
+                    except Exception as e:
+                        rec['raised'] = f'{si}:{type(e).__name__}'
+                        break
+                    d = _judge(root)
+                    if d:
+                        rec['fail'] = d
+                        rec['step'] = si
+                        break
+                rec['after'] = root.src
+                res.append(rec)
+    return res
+
+
+def opt_signature(rec):
+    cls = 'no-parse' if rec['fail'].startswith('source no longer parses') else ('structure' if rec['fail'].startswith('structure') else 'positions')
+    return f"C01|opt|{rec['cls']}.{rec['field']}|{rec['op']}@{rec['step']}/{rec['case'][1]}.{rec['vi']}{rec['var'][0]}|{cls}"
+
+
+def replay_opt(rec):
+    for r in run_opt_case(tuple(rec['case']), only=(rec['vi'], rec['var'], rec['op'])):
+        if 'fail' in r:
             return r['fail']
     return None
